@@ -442,6 +442,10 @@ class Executor(object):
         if sym in ('==', '!=') and isinstance(a, VSeq) and isinstance(b, VSeq):
             # give the negative branch an observable witness
             st.assume(smt.ext_witness_eq(a.t, b.t))
+            from .seqlit import literal_eq_fact
+            lf = literal_eq_fact(a.t, b.t)           # comparison with a bytes literal: decided by length + elements
+            if lf is not None:
+                st.assume(lf)
         return [Outcome('normal', st, r)]
 
     def contains(self, container, x, st):
@@ -450,6 +454,12 @@ class Executor(object):
         if isinstance(container, VStr) and isinstance(x, VStr):
             return VBool(z3.BoolVal(x.s in container.s))
         if isinstance(container, (VTuple, VList)):
+            if isinstance(x, VSeq):
+                from .seqlit import literal_eq_fact
+                for it in container.items:
+                    lf = literal_eq_fact(x.t, it.t) if isinstance(it, VSeq) else None
+                    if lf is not None:
+                        st.assume(lf)
             return VBool(z3.Or([eq_op(x, it).t for it in container.items] + [z3.BoolVal(False)]))
         if isinstance(container, VDict):
             if isinstance(x, VInt):
